@@ -56,6 +56,17 @@ type OwnerDTO struct {
 }
 
 func (p *Pet) Note() string { return p.note }
+
+// Raw and RawDTO: a convertible pair with a composite destination type (a warning under :typecast).
+type Raw struct {
+	Data string
+	N    int
+}
+
+type RawDTO struct {
+	Data []byte
+	N    int
+}
 `, pkg),
 		"app/model/model.go": `package model
 
@@ -237,6 +248,8 @@ type B interface {
 	Two(*Owner) *OwnerDTO
 	// :typecast
 	Three(*Pet) *PetDTO
+	// :typecast
+	Four(*Raw) *RawDTO
 }
 
 // :convergen
@@ -302,6 +315,33 @@ type Convergen interface {
 	PetToDTO(*Pet) *PetDTO
 }
 `))
+	// a package that consists of the setup file alone (its types are declared in it): whatever lies at the output
+	// path is then the ONLY other file of the package the go command gets to see
+	soloRest := map[string]string{"sibling/doc.go": "package sibling\n"}
+	soloSetup := func(extra string) string {
+		return `//go:build convergen
+
+package solo
+
+type In struct {
+	ID   int
+	Name string
+}
+
+type Out struct {
+	ID   int
+	Name string
+	Note string
+}
+
+type Convergen interface {
+	// :skip Note
+	InToOut(*In) *Out
+` + extra + `}
+`
+	}
+	ins = append(ins, Input{Name: "solo", Pkg: "solo", Setup: soloSetup(""), Rest: soloRest, Accepts: true})
+	ins = append(ins, Input{Name: "solo2", Pkg: "solo", Setup: soloSetup("\t// :literal Note \"n\"\n\tInToOut2(*In) *Out\n"), Rest: soloRest, Accepts: true})
 	// the same as "simple" under a long package name (truncation points inside the package identifier)
 	long := mk("longname", "longpkgname", strings.Replace(ins[0].Setup, "package conv", "package longpkgname", 1))
 	ins = append(ins, long)
